@@ -149,7 +149,7 @@ func genCharCfgOnce(r *Rng, o charOpt) CharCfg {
 // word lists
 // ---------------------------------------------------------------------------
 
-var stemPool = []string{"ka", "lo", "mi", "zu", "polish", "apple", "reno", "éa", "naïve", "ßa", "λx", "две", "ñu", "two words", "re-do", "o'k", "#tag", "X-ray", "O'neil", "-x", "4 x", "_y", "9 lives", "iPhone", "NASA", "eBay", "50%", "%d", "ka\r", " lo", "zu "}
+var stemPool = []string{"ka", "lo", "mi", "zu", "polish", "apple", "reno", "éa", "naïve", "ßa", "λx", "две", "ñu", "two words", "re-do", "o'k", "#tag", "X-ray", "O'neil", "-x", "4 x", "_y", "9 lives", "iPhone", "NASA", "eBay", "50%", "%d", "ka\r", " lo", "zu ", "ǉubav", "ǆem", "ǳa", "ნახვა"}
 var caselessPool = []string{"4", "正確", "42", "💩", "-", "語"}
 var taintStems = []string{"éa", "ñu", "λx", "две", "øre", "שלום", "語", "正確", "ÿß", "жук", "ñandú", "éßλ"}
 
@@ -295,7 +295,17 @@ func genWLCfg(r *Rng, o wlOpt) WLCfg {
 	}
 	c.Length = 1 + r.Intn(ml)
 	c.Cap = pick(r, capSchemes)
+	if r.Chance(0.08) {
+		// scheme strings that are not one of the five constants select no capitalisation at all
+		c.Cap = pick(r, []string{"Random", "RANDOM", "One", "ALL", "First", "random "})
+	}
 	c.Sep = genSep(r, o)
+	if c.Sep.Kind != "char" && r.Chance(0.15) {
+		c.AlsoChar = pick(r, []string{"+", "/", "é"})
+		if o.taint {
+			c.AlsoChar = pick(r, taintPool)
+		}
+	}
 	return c
 }
 
